@@ -91,3 +91,23 @@ CONTRACTS.append(
         pure_results={"extract_default": "opaque", "unquote": "opaque"},
     )
 )
+
+
+# --------------------------------------------------------------------------------------------------------------
+# _infer_default (cdd/shared/docstring_parsers.py), the step the class and function parsers run on a default that is still an AST
+# node (`-4` is a UnaryOp, not a Constant): the default is evaluated, and the TYPE is derived from the value only when none was
+# recorded (or only the placeholder 'UnaryOp' was) -- a declared annotation such as Optional[int] is left exactly as it is
+# ("types are preserved": every hop through `function` relies on it).
+MD = "cdd.shared.docstring_parsers"
+CONTRACTS.append(
+    Contract(
+        MD + ":_infer_default#declared-type-kept",
+        src=MD + ":_infer_default",
+        block=lambda txt: txt.startswith("if _param.get('typ') is None or ") and txt.rstrip().endswith("_param['typ'] = type(_param['default']).__name__") and txt.count("\n") <= 2,
+        params={"_param": {"typ?": "str", "default": "opaque"}},
+        ensures=[
+            "implies(present(old(_param), 'typ') and old(field(_param, 'typ')) != 'UnaryOp', present(_param, 'typ') and field(_param, 'typ') == old(field(_param, 'typ')))",
+            "present(_param, 'typ')",
+        ],
+    )
+)
